@@ -531,7 +531,7 @@ class C04(Suite):
     kf_ids = {i: f"F-C04-{i}" for i in range(1, 11)}
     corr = "rdflib.plugins.sparql.evaluate.evalPart (evalBGP, evalJoin, evalLazyJoin, evalLeftJoin, evalFilter, evalUnion, evalMinus, evalExtend, evalValues, evalGraph, evalProject, evalDistinct), operators.RelationalExpression/ConditionalAnd/Or/UnaryNot/Builtin_BOUND/Builtin_EXISTS, algebra.translateQuery"
     quick_n = 1200
-    thorough_n = 20000
+    thorough_n = 12000
     timeout_s = 10.0
 
     # ------------------------------------------------------------ generation
